@@ -168,6 +168,8 @@ def error_provenance(ctx):
     # through the fallible look-up and hands the error on with `?`; the missing-path errors are two of these arms
     with ctx.only(lambda k: k.startswith("resolver/")):
         G.resolver_arms(ctx, "C10.1")
+    # .. and nothing short-cuts the look-up: a reference is rendered as a parent parameter only if its id IS that parameter's concrete id
+    G.param_match_predicate(ctx, "C10.1")
 
 
 def sanity_first(ctx):
